@@ -78,6 +78,29 @@ def build(chk):
                 chk.count("loop.width%d" % (1 << w))
                 chk.count("loop.%s.%s" % (mode, "noexit" if ex == "none" else "exit"))
                 progs.append(p)
+    # bodies of other syntactic shapes: a bare `Right(expr)` / `Left(expr)` (no let, no match), a match as the whole body,
+    # ctx of unit type; the accumulator update is order-sensitive (rotate-and-xor), so the iteration order is observable
+    conv8 = {0: "<(u4, u4)>::into((0, <(u2, u2)>::into((0, <(u1, u1)>::into((0, i))))))", 1: "<(u4, u4)>::into((0, <(u2, u2)>::into((0, i))))", 2: "<(u4, u4)>::into((0, i))", 3: "i"}
+    for w in (0, 1, 2, 3):
+        cty = "u%d" % (1 << w)
+        upd = "jet::xor_8(jet::left_rotate_8(1, acc), %s)" % conv8[w]
+        shapes = [
+            ("bare-right", "fn lp(acc: u8, ctx: (), i: %s) -> Either<u8, u8> { Right(%s) }" % (cty, upd)),
+            ("bare-right-ctx", "fn lp(acc: u8, ctx: u8, i: %s) -> Either<u8, u8> { Right(jet::xor_8(%s, ctx)) }" % (cty, upd)),
+            ("bare-left", "fn lp(acc: u8, ctx: (), i: %s) -> Either<u8, u8> { Left(%s) }" % (cty, upd)),
+            ("match-body", "fn lp(acc: u8, ctx: u8, i: %s) -> Either<u8, u8> { match jet::eq_8(%s, ctx) { true => Left(acc), false => Right(%s), } }" % (cty, conv8[w], upd)),
+        ]
+        for nm, ftext in shapes:
+            unit = "ctx: ()" in ftext
+            for init in (1, rng.randrange(256)):
+                cv = rng.randrange(1 << (1 << w)) if w < 3 else rng.choice([0, 3, 200, 255])
+                text = ("%s\nfn main() { let r: Either<u8, u8> = for_while::<lp>(%d, %s); "
+                        "let v: u8 = match r { Left(x: u8) => jet::complement_8(x), Right(y: u8) => y, }; assert!(jet::eq_8(v, witness::EXPECT)); }") % (ftext, init, "()" if unit else "witness::C")
+                wits = ([] if unit else [("C", ("U", 3))]) + [("EXPECT", ("U", 3))]
+                p = Prog(text, wits, "loop-shape/%d/%s/%d" % (w, nm, init))
+                p.fixed = [] if unit else [("C", ("u", 3, cv))]
+                chk.count("loop.shape.%s" % nm)
+                progs.append(p)
     return progs
 
 
